@@ -288,6 +288,12 @@ const agg2CmpBodyRaw = `// check to see if anything needs to be created
 	switch {
 		case !safe && same && reuse == nil:
 			err = e.E.{{.Name}}Same(typ, dataA, dataB)
+			{{if not .VV -}}
+			if t.Shape().IsScalarEquiv() && !leftTensor {
+				// both operands have one element: the kernel left the result in the scalar
+				storage.Copy(typ, dataB, dataA)
+			}
+			{{end -}}
 			retVal = a
 		{{if .VV -}}
 		case same && safe && reuse != nil:
